@@ -3,6 +3,7 @@
 -/
 import CedarGo.Model.RawAst
 import CedarGoProofs.Properties.C03
+import CedarGoProofs.Lemmas.RecordLit
 namespace CedarGo
 open Scalars
 
@@ -170,6 +171,16 @@ macro "np_step" : tactic => `(tactic| with_reducible first
   | (dsimp only; split))
 macro "np" : tactic => `(tactic| repeat' np_step)
 
+/-- entries evaluated in a given order: no panic if no entry panics -/
+theorem evalKVs_noPanic_of (env : Env) : ∀ (l : List (String × Expr)), (∀ ke ∈ l, NoPanic (eval ke.2 env)) →
+    NoPanic (evalKVs l env)
+  | [], _ => by simp only [evalKVs]; exact noPanic_ok _
+  | (k, e) :: l, h => by
+    have ih1 : NoPanic (eval e env) := h (k, e) (by simp)
+    have ih2 := evalKVs_noPanic_of env l (fun ke hke => h ke (by simp [hke]))
+    simp only [evalKVs]
+    exact noPanic_bind ih1 (fun _ => noPanic_bind ih2 (fun _ => noPanic_ok _))
+
 mutual
 theorem eval_noPanic : ∀ (e : Expr) (env : Env), NoPanic (eval e env)
   | .lit v, env => by simp only [eval]; np
@@ -207,7 +218,8 @@ theorem eval_noPanic : ∀ (e : Expr) (env : Env), NoPanic (eval e env)
     simp only [eval]; np
   | .record kes, env => by
     have ih := evalKVs_noPanic kes env
-    simp only [eval]; np
+    rw [eval_recordLit]
+    exact noPanic_bind' (evalKVs_noPanic_of env _ (fun ke h => ih ke (canonKVs_subset kes ke h))) (fun _ => noPanic_ok _)
   | .call fn args, env => by
     have ihA := evalTyped_noPanic args [.str] env
     have ihB := evalTyped_noPanic args (extSig fn) env
@@ -224,12 +236,13 @@ theorem evalList_noPanic : ∀ (es : List Expr) (env : Env), NoPanic (evalList e
     have ih1 := eval_noPanic e env
     have ih2 := evalList_noPanic es env
     simp only [evalList]; np
-theorem evalKVs_noPanic : ∀ (kes : List (String × Expr)) (env : Env), NoPanic (evalKVs kes env)
-  | [], _ => by simp only [evalKVs]; np
+theorem evalKVs_noPanic : ∀ (kes : List (String × Expr)) (env : Env), ∀ ke ∈ kes, NoPanic (eval ke.2 env)
+  | [], _ => by intro ke h; cases h
   | (k, e) :: kes, env => by
-    have ih1 := eval_noPanic e env
-    have ih2 := evalKVs_noPanic kes env
-    simp only [evalKVs]; np
+    intro ke h
+    rcases List.mem_cons.mp h with h | h
+    · rw [h]; exact eval_noPanic e env
+    · exact evalKVs_noPanic kes env ke h
 end
 
 
